@@ -386,3 +386,37 @@ Proof.
   exists [AddClause [7; 0] true]. eexists. exists 0. split; [vm_compute; reflexivity|].
   exists [7; 0], 7. vm_compute. intuition discriminate.
 Qed.
+
+(* ---------- statements in the form quoted by Prop_C11.v ---------- *)
+Section Wrap.
+  Context (off : Z) (s : shape) (Hoff : 0 <= off) (Hw : shape_wf s).
+  Let L := all_group_laws off s Hoff Hw.
+  Lemma w_size : len (indices s) = gsize s. Proof. exact (g_size off s L). Qed.
+  Lemma w_enum : map (to_id off s) (indices s) = map Some (zrange (off + 1) (off + gsize s + 1)). Proof. exact (g_enum off s L). Qed.
+  Lemma w_index_of_id i x : In i (indices s) -> to_id off s i = Some x ->
+    to_index off s x = Some i /\ to_index off s (- x) = Some i /\ off + 1 <= x <= off + gsize s.
+  Proof. exact (g_index_of_id off s L i x). Qed.
+  Lemma w_id_of_index l i : to_index off s l = Some i -> In i (indices s) /\ to_id off s i = Some (Z.abs l).
+  Proof. exact (g_id_of_index off s L l i). Qed.
+  Lemma w_to_index_none l : to_index off s l = None <-> ~ (off + 1 <= Z.abs l <= off + gsize s).
+  Proof. exact (g_to_index_none off s L l). Qed.
+  Lemma w_to_id_some i x : to_id off s i = Some x ->
+    In (canon s i) (indices s) /\ to_index off s x = Some (canon s i) /\ off + 1 <= x <= off + gsize s.
+  Proof. exact (g_to_id_some off s L i x). Qed.
+  Lemma w_to_id_rejects i : ~ In (canon s i) (indices s) -> to_id off s i = None.
+  Proof. exact (g_to_id_rejects off s L i). Qed.
+  Lemma w_nodup : NoDup (indices s). Proof. exact (g_nodup off s L). Qed.
+  Lemma w_unrank_all : map (to_index off s) (zrange (off + 1) (off + gsize s + 1)) = map Some (indices s).
+  Proof. exact (g_unrank_all off s L). Qed.
+End Wrap.
+
+Lemma names_nth dflt st i : 1 <= i <= numvar st -> znth (i - 1) (names_of_variables dflt st) = Some (label_of dflt st i).
+Proof.
+  intros H. unfold names_of_variables. rewrite znth_map, znth_zrange by lia. cbn [option_map]. f_equal. f_equal. lia.
+Qed.
+
+Theorem labels_nth_history f fixD3 dflt ops i : Forall op_wf ops ->
+  fixD3 = true \/ singles_tight 0 (groups (run f init_state ops)) = true ->
+  1 <= i <= numvar (run f init_state ops) ->
+  znth (i - 1) (all_variable_labels fixD3 dflt (run f init_state ops)) = Some (label_of dflt (run f init_state ops) i).
+Proof. intros Hw Ht Hi. rewrite labels_aligned_history by assumption. now apply names_nth. Qed.
